@@ -748,6 +748,11 @@ for _v in (0, 1, 2):
       defines=['VF_V=%d' % _v, 'VF_TLVS=4'], bound='native grid under ASan/UBSan/LSan with the assertions of h_seq_ber.c (descriptor variant %d): 5 outer length forms x every sequence of at most 4 of 9 TLV templates (members in and out of order, unknown primitive/constructed additions, end-of-contents, wrong length) x every truncation x every two-chunk split' % _v,
       timeout=1500)
 
+O(id='OCTET_STRING_decode_ber.grid', props=['C03', 'C04', 'C05', 'C14'], kind='native', harness='harness/grid_os_ber.c', entry='main',
+  functions=['OCTET_STRING_decode_ber', 'OCTET_STRING_free', 'ber_check_tags', 'ber_fetch_tag', 'ber_fetch_length'], no_canary=True,
+  bound='native grid under ASan/UBSan/LSan with the assertions of h_octet_string_ber.c, OCTET STRING and BIT STRING: every input of at most 2 octets, 3-octet inputs with 12 leading octets, 4 outer forms x every sequence of at most 3 of 8 segment templates (primitive, nested constructed, indefinite, end-of-contents, foreign tag, bad length); every truncation x every two-chunk split',
+  timeout=1500)
+
 for _o in OBLIGATIONS:
     if _o.get('enforce') and _o.get('kind') in ('enforce', 'width') and _o.get('tier') == 'quick' and 'C19' not in _o['props']:
         _o['props'] = _o['props'] + ['C19']
